@@ -47,7 +47,7 @@ class NumbaShim:
 
     def get_thread_id(self):
         c = core.ctx()
-        if c.tag is None:
+        if c.tag is None or (isinstance(self._nthreads, int) and self._nthreads == 1):
             return 0
         tids = c.extra.setdefault('tids', {})
         if c.tag not in tids:
